@@ -27,6 +27,20 @@ if not isinstance(first, dict) or first.get("ev") != "init":
     print(json.dumps(doc[0] if isinstance(doc, list) and doc else doc, indent=1)[:3000])
     print("re-run the generating check: bin/check %s quick" % pid)
     sys.exit(2)
+last = json.loads(text.splitlines()[-1])
+if isinstance(last, dict) and last.get("ev") == "hang":
+    # the recorded prefix is accepted by construction; the violation is the call after it, which did not return: re-run the recorder
+    print("a call of the library did not return after event %d; re-running the recorder (watchdog 60 s): %s" % (last["after_event"], last["rerun"]))
+    args = last["rerun"].split()[1:]
+    if "--out" in args:
+        i = args.index("--out")
+        del args[i:i + 2]
+    out = os.path.join(vlib.VERIF, "work", "replay_hang.ndjson")
+    os.makedirs(os.path.dirname(out), exist_ok=True)
+    vlib.build_harness()
+    rc, _ = vlib.sh([vlib.RV] + args + ["--out", out, "--hang", "60"], timeout=900)
+    print("still hangs (recorder status 3)" if rc == 3 else "the recorder finished with status %d" % rc)
+    sys.exit(1 if rc == 3 else 0)
 kind = first.get("kind", "bdd")
 per_prop = {"bdd": "TraceBdd", "sdd": "TraceSdd", "topdown": "TraceTopDown"}
 single = {"table": "TraceTable", "lru": "TraceLru", "sat": "TraceUnitProp", "cnf": "TraceCnf", "orders": "TraceOrders",
